@@ -12,11 +12,15 @@ def _ift():
 
 
 def _dt(case):
-    return {"i": np.int64, "f": np.float64, "c": np.complex128}[case.get("dtype", "f")]
+    return {"i": np.int64, "f": np.float64, "c": np.complex128, "F": np.float32, "C": np.complex64}[case.get("dtype", "f")]
 
 
 def _pick_dtype(rng, allowed="ifc"):
-    return rng.choice(list(allowed))
+    """single precision variants (small integers / dyadic weights are exact there too) are mixed in"""
+    d = rng.choice(list(allowed))
+    if d in "fc" and rng.random() < 0.2:
+        return d.upper()
+    return d
 
 
 def _sizes(doms):
@@ -107,6 +111,10 @@ class _Contraction(Base):
     def gen(self, rng, quick):
         doms = U.gen_doms(rng)
         power = rng.choice([0, 0, 1, 1, 2, -1])
+        if rng.random() < 0.4:          # make sure contracted / kept sub-domains with several axes are frequent
+            i = rng.randrange(len(doms))
+            doms[i] = U.sub_json(dict(kind="RG", shape=[rng.randint(1, 3), rng.randint(1, 3)],
+                                      dist=[rng.choice([0.5, 1.0, 2.0]), rng.choice([0.5, 0.25])], harmonic=False))
         return dict(cls=self.name, doms=doms,
                     spaces=_gen_spaces(rng, len(doms)) if power == 0 else _gen_weighted_spaces(rng, doms), power=power,
                     via=rng.choice(["ContractionOperator", "IntegrationOperator"]) if power == 1 else "ContractionOperator",
@@ -393,9 +401,6 @@ class _Squeeze(Base):
     def line(self, case):
         return dict(cls=self.name, doms=_model_doms(case), aggressive=case["aggressive"])
 
-    def extras(self, case, op):
-        return {"tshapes": [[int(s) for s in d.shape] for d in op.target]}
-
     def ref(self, case, x):
         return x
 
@@ -562,6 +567,14 @@ def _vals_np(js):
     return np.array(js, dtype=np.float64)
 
 
+def _vals_case(case, key):
+    """operator-internal arrays (fields, matrices, diagonals) follow the precision of the case"""
+    a = _vals_np(case[key]) if not isinstance(case[key], dict) else None
+    if case.get("dtype") in ("F", "C"):
+        a = a.astype(np.complex64 if np.iscomplexobj(a) else np.float32)
+    return a
+
+
 @register("OuterProduct")
 class _Outer(Base):
     def gen(self, rng, quick):
@@ -570,12 +583,12 @@ class _Outer(Base):
         cplx = rng.random() < 0.4
         return dict(cls=self.name, doms=doms, fdoms=fdoms,
                     f=_vals_json(_rand_vals(rng, int(np.prod(_sizes(fdoms))), cplx)),
-                    dtype="c" if cplx else _pick_dtype(rng))
+                    dtype=_pick_dtype(rng, "c") if cplx else _pick_dtype(rng))
 
     def build(self, case):
         ift = _ift()
         fd = U.build_domtuple(case["fdoms"])
-        f = ift.makeField(fd, _vals_np(case["f"]).reshape(fd.shape))
+        f = ift.makeField(fd, _vals_case(case, "f").reshape(fd.shape))
         return ift.OuterProduct(U.build_domtuple(case["doms"]), f)
 
     def line(self, case):
@@ -591,12 +604,12 @@ class _Vdot(Base):
         doms = U.gen_doms(rng, maxsize=24)
         cplx = rng.random() < 0.5
         return dict(cls=self.name, doms=doms, f=_vals_json(_rand_vals(rng, int(np.prod(_sizes(doms))), cplx)),
-                    dtype="c" if cplx else _pick_dtype(rng, "fc"))
+                    dtype=_pick_dtype(rng, "c") if cplx else _pick_dtype(rng, "fc"))
 
     def build(self, case):
         ift = _ift()
         d = U.build_domtuple(case["doms"])
-        return ift.VdotOperator(ift.makeField(d, _vals_np(case["f"]).reshape(d.shape)))
+        return ift.VdotOperator(ift.makeField(d, _vals_case(case, "f").reshape(d.shape)))
 
     def line(self, case):
         return dict(cls=self.name, f=[U.cq(v) for v in _vals_np(case["f"])])
@@ -889,7 +902,18 @@ class _MatProd(Base):
 
     def gen(self, rng, quick):
         cplx = rng.random() < 0.4
-        mode = rng.choice(["flat1d", "flatten", "spaces"])
+        mode = rng.choice(["flat1d", "flatten", "spaces", "anyspaces", "anyspaces"])
+        if mode == "anyspaces":
+            while True:
+                doms = U.gen_doms(rng, maxsize=36)
+                k = rng.randint(1, len(doms))
+                sp = rng.sample(range(len(doms)), k)          # any subset, any order (non-contiguous included)
+                n = int(np.prod([U.sub_size(doms[i]) for i in sp]))
+                if n <= 8 and not (len(doms) == 1 and len(doms[0]["shape"]) == 1):
+                    break
+            m = _rand_vals(rng, n * n, cplx)
+            return dict(cls=self.name, doms=doms, spaces=sp, flatten=False, blk=None, m=_vals_json(m),
+                        dtype=_pick_dtype(rng, "c") if cplx else _pick_dtype(rng, "fc"))
         if mode == "flat1d":
             doms = [U.sub_json(U.gen_sub(rng, maxdim=1))]
             doms[0] = U.sub_json(dict(kind="U", shape=[rng.randint(1, 5)]))
@@ -908,18 +932,18 @@ class _MatProd(Base):
         n = int(np.prod([U.sub_size(doms[i]) for i in blk]))
         m = _rand_vals(rng, n * n, cplx)
         return dict(cls=self.name, doms=doms, spaces=spaces, flatten=flatten, blk=blk, m=_vals_json(m),
-                    dtype="c" if cplx else _pick_dtype(rng, "fc"))
+                    dtype=_pick_dtype(rng, "c") if cplx else _pick_dtype(rng, "fc"))
 
     def build(self, case):
         doms = case["doms"]
-        blk = case["blk"]
+        blk = case["blk"] if case["blk"] is not None else case["spaces"]
         if case["flatten"] or case["spaces"] is None and len(doms) == 1 and len(doms[0]["shape"]) == 1:
             n = int(np.prod([U.sub_size(doms[i]) for i in blk]))
             mshape = (n, n)
         else:
             shp = [s for i in blk for s in doms[i]["shape"]]
             mshape = tuple(shp) + tuple(shp)
-        mat = _vals_np(case["m"]).reshape(mshape)
+        mat = _vals_case(case, "m").reshape(mshape)
         sp = tuple(case["spaces"]) if case["spaces"] is not None else None
         return _ift().MatrixProductOperator(U.build_domtuple(doms), mat, spaces=sp, flatten=case["flatten"])
 
@@ -927,6 +951,8 @@ class _MatProd(Base):
         doms = _model_doms(case)
         sizes = _sizes(doms)
         blk = case["blk"]
+        if blk is None:
+            return dict(cls="MatrixProductSpaces", sizes=sizes, spaces=case["spaces"], m=[U.cq(v) for v in _vals_np(case["m"])])
         pre = int(np.prod(sizes[:blk[0]], dtype=int))
         post = int(np.prod(sizes[blk[-1] + 1:], dtype=int))
         n = int(np.prod([sizes[i] for i in blk], dtype=int))
@@ -935,6 +961,14 @@ class _MatProd(Base):
     def ref(self, case, x):
         sizes = _sizes(case["doms"])
         blk = case["blk"]
+        if blk is None:
+            sp = case["spaces"]
+            n = int(np.prod([sizes[i] for i in sp], dtype=int))
+            m = _vals_np(case["m"]).reshape([sizes[i] for i in sp] * 2)
+            L = "abcdefg"[:len(sizes)]
+            out_l = "".join(L[i].upper() if i in sp else L[i] for i in range(len(sizes)))
+            msub = "".join(L[i].upper() for i in sp) + "".join(L[i] for i in sp)
+            return np.einsum(msub + "," + L + "->" + out_l, m, x.reshape(sizes)).reshape(-1)
         pre = int(np.prod(sizes[:blk[0]], dtype=int))
         post = int(np.prod(sizes[blk[-1] + 1:], dtype=int))
         n = int(np.prod([sizes[i] for i in blk], dtype=int))
@@ -947,7 +981,7 @@ class _RealLinear(Base):
     dtypes = "c"
 
     def gen(self, rng, quick):
-        return dict(cls=self.name, doms=U.gen_doms(rng, maxsize=16), dtype="c")
+        return dict(cls=self.name, doms=U.gen_doms(rng, maxsize=16), dtype=_pick_dtype(rng, "c"))
 
     def line(self, case):
         return dict(cls=self.name, n=int(np.prod(_sizes(_model_doms(case)))))
@@ -987,7 +1021,7 @@ class _PartialConj(_RealLinear):
     def gen(self, rng, quick):
         md = _gen_mdom(rng, maxsize=16)
         ks = list(md.keys())
-        return dict(cls=self.name, mdom=md, keys=rng.sample(ks, rng.randint(0, len(ks))), dtype="c")
+        return dict(cls=self.name, mdom=md, keys=rng.sample(ks, rng.randint(0, len(ks))), dtype=_pick_dtype(rng, "c"))
 
     def malformed(self, rng):
         c = self.gen(rng, True)
@@ -1067,7 +1101,7 @@ class _Einsum(Base):
         present = sorted(set("".join(o["sub"] for o in ops.values())) | set(xs))
         out = rng.sample(present, rng.randint(0, len(present)))
         return dict(cls=self.name, letters={c: sub[c] for c in letters}, ops=ops, xsub="".join(xs), out="".join(out),
-                    explicit_order=rng.random() < 0.5, dtype="c" if cplx else _pick_dtype(rng, "fc"))
+                    explicit_order=rng.random() < 0.5, dtype=_pick_dtype(rng, "c") if cplx else _pick_dtype(rng, "fc"))
 
     def malformed(self, rng):
         c = self.gen(rng, True)
@@ -1086,7 +1120,10 @@ class _Einsum(Base):
         for k in keys:
             o = case["ops"][k]
             d = ift.DomainTuple.make(tuple(U.build_sub(L[c]) for c in o["sub"]))
-            mf[k] = ift.makeField(d, _vals_np(o["data"]).reshape(d.shape))
+            arr = _vals_np(o["data"])
+            if case.get("dtype") in ("F", "C"):
+                arr = arr.astype(np.complex64 if np.iscomplexobj(arr) else np.float32)
+            mf[k] = ift.makeField(d, arr.reshape(d.shape))
         mf = ift.MultiField.from_dict(mf)
         dom = ift.DomainTuple.make(tuple(U.build_sub(L[c]) for c in case["xsub"]))
         return ift.LinearEinsum(dom, mf, sscr, key_order=tuple(keys) if case["explicit_order"] else None)
@@ -1129,7 +1166,7 @@ class _Diagonal(Base):
         m = int(np.prod([U.sub_size(doms[s]) for s in sp]))
         vals = [rng.choice(_DIAGVALS_C if (cplx and rng.random() < 0.7) else _DIAGVALS) for _ in range(m)]
         return dict(cls=self.name, doms=doms, spaces=spaces, d=_vals_json([complex(v) if cplx else v for v in vals]),
-                    dtype="c" if cplx else _pick_dtype(rng, "fc"))
+                    dtype=_pick_dtype(rng, "c") if cplx else _pick_dtype(rng, "fc"))
 
     def malformed(self, rng):
         c = self.gen(rng, True)
@@ -1147,7 +1184,7 @@ class _Diagonal(Base):
             dd = ift.DomainTuple.make(dom[0])
             return ift.DiagonalOperator(ift.full(dd, 1.), dom, case["spaces"])
         dd = ift.DomainTuple.make(tuple(dom[s] for s in sp))
-        diag = ift.makeField(dd, _vals_np(case["d"]).reshape(dd.shape))
+        diag = ift.makeField(dd, _vals_case(case, "d").reshape(dd.shape))
         spaces = case["spaces"]
         if isinstance(spaces, list):
             spaces = tuple(spaces)
@@ -1180,7 +1217,7 @@ class _Scaling(Base):
         cplx = rng.random() < 0.4
         f = rng.choice(_DIAGVALS_C) if cplx else rng.choice(_DIAGVALS)
         return dict(cls=self.name, doms=U.gen_doms(rng, maxsize=24), f=[f.real, f.imag] if cplx else f,
-                    dtype="c" if cplx else _pick_dtype(rng, "fc"))
+                    dtype=_pick_dtype(rng, "c") if cplx else _pick_dtype(rng, "fc"))
 
     def _f(self, case):
         f = case["f"]
